@@ -233,7 +233,7 @@ Theorem C17_html_written_ranges :
   forall t, written_ranges t =
     name_range (tr_start t) (tr_name t) ::
     squash (Some (name_range (tr_start t) (tr_name t))) (map fst (tl (tag_items t))).
-Proof. reflexivity. Qed.
+Proof. exact written_ranges_items. Qed.
 Print Assumptions C17_html_written_ranges.
 
 (* non-vacuity on text: d = <p class="a b" id=x k={v}>t</p><br/> is a document of the grammar; at position 30
